@@ -107,7 +107,7 @@ pub fn checksums() -> BoxedStrategy<Vec<(Alg, String)>> {
 pub fn size() -> BoxedStrategy<Option<u64>> {
     prop::option::weighted(
         0.7,
-        prop_oneof![2 => prop::sample::select(vec![0u64, 1, u64::MAX, 783756]), 1 => any::<u64>()],
+        prop_oneof![2 => prop::sample::select(vec![0u64, 1, u64::MAX, 783756]), 1 => any::<u64>(), 1 => crate::engine::gen::interesting_u64(u64::MAX)],
     )
     .boxed()
 }
